@@ -53,9 +53,13 @@ WalkShapes == { ScanOp("c1", T1, ix, f[1], <<>>, f[2]) : ix \in {NoIndex, Index(
               \cup { Q(NoIndex, "h", Str(A), <<>>, <<Cond(Cmp("=", Path("v"), Val(":one"))), V1>>, TRUE) }
               \cup { Q(Index("gsx"), "g", GP, <<>>, <<NoFilter, <<>>>>, fwd) : fwd \in BOOLEAN }
               \cup { Q(Index("gix"), "g", GP, <<>>, <<NoFilter, <<>>>>, TRUE) }
+              \cup { Q(Index("rvx"), "r", Str(<<49>>), <<>>, <<NoFilter, <<>>>>, fwd) : fwd \in BOOLEAN }
+              \cup { ScanOp("c1", T1, Index("rvx"), NoFilter, <<>>, <<>>) }
 Walks == { WalkOp(q, lim, del) : q \in WalkShapes, lim \in 1..3, del \in BOOLEAN }
 
-SetupDef == << AddTable("c1", T1, "h", "r"), AddIndex("c1", T1, "gix", "g", ""), AddIndex("c1", T1, "gsx", "g", "s") >>
+\* rvx is the table's key inverted (r, h): every attribute of the index key is a table key attribute, so a LastEvaluatedKey of a read
+\* through it carries nothing but the table key
+SetupDef == << AddTable("c1", T1, "h", "r"), AddIndex("c1", T1, "gix", "g", ""), AddIndex("c1", T1, "gsx", "g", "s"), AddIndex("c1", T1, "rvx", "r", "h") >>
 MenuDef == SetToSeq( { Put(T1, it) : it \in Items } \cup { Del(T1, k, FALSE) : k \in Keys } )
            \o (IF WithReads THEN SetToSeq(BaseQueries) \o SetToSeq(GsxQueries) \o SetToSeq(GixQueries) \o SetToSeq(Scans) \o SetToSeq(Projected) ELSE <<>>)
            \o (IF WithWalks THEN SetToSeq(Walks) ELSE <<>>)
